@@ -173,7 +173,7 @@ def distinct_nontrivial(lines):
     return len(seen)
 
 
-def run_lifecycle(ctx, prop, mc_plan, ex_plan, level, assumptions, replay=None):
+def run_lifecycle(ctx, prop, mc_plan, ex_plan, level, assumptions, replay=None, extra_cov=None):
     """mc_plan: list of kwargs for model_check; ex_plan: list of kwargs for explore (with 'shape').
     Replays re-execute nothing abstractly: a replay file holds the concrete step; it is re-run by
     exploring from scratch with the same seed and bounds (the driver is deterministic given the seed)."""
@@ -211,4 +211,7 @@ def run_lifecycle(ctx, prop, mc_plan, ex_plan, level, assumptions, replay=None):
         "lines_with_failed_clauses_of_any_property": total_failed,
         "exhaustive": True,
     }
+    if extra_cov:
+        cov.update(extra_cov)
+        cov["evaluations"] += extra_cov.get("sweep_evaluations", 0)
     return ctx.finish(level, cov, assumptions)
